@@ -6,7 +6,7 @@ From Coq Require Import List NArith ZArith Bool Arith Permutation.
 From Coq Require Import Init.Byte.
 From FFS Require Import Base.Res Base.Bytes AbiType.Syntax AbiType.Model Ffi.Model Ffi.Spec Ffi.SpecExact
      Ffi.Proofs Ffi.ProofsSpec Ffi.ProofsRound Ffi.ProofsSig Ffi.ProofsOrder Ffi.ProofsRound3
-     Ffi.ProofsExact Ffi.ProofsNames Ffi.ProofsAbiExact Ffi.ProofsDescribed Ffi.ProofsGenerated Ffi.ProofsElements.
+     Ffi.ProofsExact Ffi.ProofsNames Ffi.ProofsAbiExact Ffi.ProofsDescribed Ffi.ProofsGenerated Ffi.ProofsElements Ffi.SpecRead Ffi.ProofsRead.
 Import ListNotations.
 Local Open Scope string_scope.
 
@@ -696,3 +696,109 @@ Example C20_helper_alias_nonvacuous :
   ABIMethodToSignature (mkEntry EFunction (str "h") [P "x" "uintx" []] []) = str "h(uintx)" /\
   is_ok (SignatureCtx (mkEntry EFunction (str "h") [P "x" "uintx" []] [])) = false.
 Proof. vm_compute. repeat split. Qed.
+
+(* 9. Wave 6: the characterisation 4b / 4c / 4g WITHOUT the guard [json_type_declared].  Vocabulary
+      (Ffi/SpecRead.v): [read_json_type s] the JSON type of a schema as a total function -- its "type",
+      or, when it has a "oneOf", the LAST alternative other than "string" (none: the empty text, no JSON
+      type); where the oracle of Spec.v declares a type it is that one (9c).  [json_unsuited],
+      [elements_unsuited], [type_unsuited]: the clauses [json_at_odds], [elements_at_odds],
+      [type_at_odds] of 6 over it; [types_suit s]: [type_unsuited] is false at every level that describes
+      a parameter (the schema, its members, their members ...); [types_suit_b] computes it.
+
+   9a. For EVERY decoded schema value: a parameter schema is accepted exactly when it passed the
+       jsonschema compile, is consistent, its JSON types suit, and it describes a valid parameter -- the
+       result being that parameter; it is refused (an error, never a panic) exactly otherwise. *)
+Theorem C20_accepted_exactly :
+  forall p s, pi_unm p = Some (Some s) ->
+    (forall ap, convertFFIParam p = Ok ap <->
+                pi_verdict p = true /\ consistent s = true /\ types_suit s /\ describes (pi_name p) s ap) /\
+    ((exists e, convertFFIParam p = Err e) <->
+     ~ (pi_verdict p = true /\ consistent s = true /\ types_suit s /\ exists ap, describes (pi_name p) s ap)).
+Proof. intros p s U. split; [exact (accepted_exactly p s U)|exact (rejected_exactly p s U)]. Qed.
+Print Assumptions C20_accepted_exactly.
+
+(* 9b. The same with a right-hand side that is a computation (4g without its guard). *)
+Theorem C20_accepted_decided_all :
+  forall p s, pi_unm p = Some (Some s) ->
+    (forall ap, convertFFIParam p = Ok ap <->
+                pi_verdict p = true /\ consistent s = true /\ types_suit_b s = true /\
+                types_valid (described (pi_name p) s) = true /\ ap = described (pi_name p) s) /\
+    is_ok (convertFFIParam p) =
+      pi_verdict p && consistent s && types_suit_b s && types_valid (described (pi_name p) s).
+Proof. exact accepted_decided_all. Qed.
+Print Assumptions C20_accepted_decided_all.
+
+(* 9c. What [types_suit] says, and how it sits against the oracle of Spec.v: clause by clause, as 6a;
+       it is decided by [types_suit_b]; it implies "not at odds" ([type_at_odds] is the weaker test,
+       silent where a "oneOf" declares nothing); on the schemas of the guard of 4b/4c/4g it adds
+       nothing to [consistent] -- so 4b, 4c, 4g are the special case of 9a, 9b inside the guard; and
+       where a JSON type is declared it is the one read. *)
+Theorem C20_types_suit_spelled_out :
+  (forall s, types_suit s <->
+     type_unsuited s = false /\
+     Forall (fun km => forall m, snd km = Some m -> types_suit m) (members_of s)) /\
+  (forall s, type_unsuited s = false <->
+     forall d, s_details s = Some d ->
+       json_unsuited s (d_type d) = false /\ elements_unsuited (d_type d) (s_items s) = false) /\
+  (forall t items, elements_unsuited t items = false <->
+     (ends_with_rbracket t = false \/
+      exists it, items = Some it /\ json_unsuited it (strip_dim t) = false /\
+                 elements_unsuited (strip_dim t) (s_items it) = false)) /\
+  (forall s, types_suit_b s = true <-> types_suit s) /\
+  (forall s, types_suit s -> type_at_odds s = false) /\
+  (forall s, json_type_declared s -> consistent s = true -> types_suit s) /\
+  (forall s jt, declared_json_type s = Some jt -> read_json_type s = jt).
+Proof.
+  split; [exact types_suit_iff|]. split; [exact type_unsuited_spelled|].
+  split; [exact elements_unsuited_spelled|]. split; [exact types_suit_decided|].
+  split; [exact types_suit_not_at_odds|]. split; [exact declared_suit|exact read_is_declared].
+Qed.
+Print Assumptions C20_types_suit_spelled_out.
+
+(* 9d. 4d without its guard: a consistent schema describes at most one parameter. *)
+Theorem C20_described_unique_all :
+  forall s name a b, consistent s = true -> describes name s a -> describes name s b -> a = b.
+Proof. exact described_unique_all. Qed.
+Print Assumptions C20_described_unique_all.
+
+(* non-vacuity of 9: schemas outside the guard of 4 -- s3 (string | integer | boolean for a bool: the
+   last alternative suits), s4 (string | boolean | integer for a bool: it does not), s1 ("string" alone
+   for uint256: no JSON type) and a tuple s whose member lists boolean | string | integer for uint256.
+   All four are [consistent] (the oracle of Spec.v is silent on them), so [consistent] alone does not
+   decide them; [types_suit_b] does, and agrees with the conversion. *)
+Example C20_accepted_exactly_nonvacuous :
+  let det t i := Some (mkDetails (str t) [] false i) in
+  let s3 := Schema [] (Some [str "string"; str "integer"; str "boolean"]) (det "bool" None) [] None in
+  let s4 := Schema [] (Some [str "string"; str "boolean"; str "integer"]) (det "bool" None) [] None in
+  let s1 := Schema [] (Some [str "string"]) (det "uint256" None) [] None in
+  let b := Schema [] (Some [str "boolean"; str "string"; str "integer"]) (det "uint256" (Some 0%Z)) [] None in
+  let s := Schema (str "object") None (det "tuple" None) [(str "b", Some b)] None in
+  let pin s := mkPin (str "x") true (Some (Some s)) in
+  ~ json_type_declared s3 /\ ~ json_type_declared s /\
+  forallb consistent [s3; s4; s1; s] = true /\
+  map types_suit_b [s3; s4; s1; s] = [true; false; false; true] /\
+  map (fun s => is_ok (convertFFIParam (pin s))) [s3; s4; s1; s] = [true; false; false; true] /\
+  types_suit s /\ read_json_type s3 = str "boolean" /\ read_json_type s1 = [].
+Proof.
+  cbv zeta. split; [|split; [|split; [|split; [|split; [|split; [|split]]]]]]; try (vm_compute; reflexivity).
+  - intros H. inversion H as [? D DE M]. apply D. reflexivity.
+  - intros H. inversion H as [? D0 DE0 M]; subst. cbn in M.
+    inversion M as [|? ? Hb _]; subst. specialize (Hb _ eq_refl). inversion Hb as [? D DE Mb]. apply D. reflexivity.
+  - apply types_suit_decided. vm_compute. reflexivity.
+Qed.
+
+(* the witness of C20_roundtrip_nonvacuous (0a) meets [valid_params] literally: the ABI type parser accepts
+   inputs and outputs and the member names are distinct at every depth *)
+Example C20_roundtrip_witness_valid :
+  let P n t cs := FParam (str n) (str t) [] false cs in
+  let p := P "p" "tuple[][]" [P "a" "uint256" []; P "b" "tuple" [P "c" "bool" []]] in
+  valid_params [p] /\ valid_params [P "q" "uint8" []] /\ clean p.
+Proof.
+  cbv zeta. unfold valid_params. repeat split.
+  - constructor; [eexists; vm_compute; reflexivity|constructor].
+  - repeat (constructor; try (vm_compute; intuition discriminate)).
+  - constructor; [eexists; vm_compute; reflexivity|constructor].
+  - repeat (constructor; try (vm_compute; intuition discriminate)).
+  - vm_compute. discriminate.
+  - repeat (constructor; try (vm_compute; intuition discriminate)).
+Qed.
